@@ -11,9 +11,9 @@ OUT=/verif/seeded/$P-$M
 git -C /repo worktree remove --force $WT >/dev/null 2>&1
 git -C /repo worktree add --detach $WT >/dev/null 2>&1 || exit 2
 cd $WT
-PYTHONPATH=$WT timeout 900 /venv/bin/python $SRC/demo.py > /tmp/cs_${P}_${M}.pristine.log 2>&1; RC0=$?
+PYTHONPATH=$WT timeout ${DEMO_TIMEOUT:-900} /venv/bin/python $SRC/demo.py > /tmp/cs_${P}_${M}.pristine.log 2>&1; RC0=$?
 git apply $SRC/patch.diff || { echo "patch does not apply"; git -C /repo worktree remove --force $WT; exit 2; }
-PYTHONPATH=$WT timeout 900 /venv/bin/python $SRC/demo.py > /tmp/cs_${P}_${M}.mutant.log 2>&1; RC1=$?
+PYTHONPATH=$WT timeout ${DEMO_TIMEOUT:-900} /venv/bin/python $SRC/demo.py > /tmp/cs_${P}_${M}.mutant.log 2>&1; RC1=$?
 PYTHONPATH=$WT /venv/bin/python -m pytest -q -p no:cacheprovider --timeout=900 --continue-on-collection-errors optimism > /tmp/cs_${P}_${M}.tests.log 2>&1
 TAIL=$(tail -1 /tmp/cs_${P}_${M}.tests.log)
 NPASS=$(echo "$TAIL" | grep -o '[0-9]* passed' | grep -o '[0-9]*')
